@@ -137,6 +137,19 @@ func c06Fetch(g *gw.Whisper, w *wt.Whisper, win Window, now int64) string {
 	return ""
 }
 
+// c06Gen: C01's generator plus a batch with a future-dated point (a sender with a fast clock): the slot then
+// holds an interval newer than the one a reader expects there.
+func c06Gen(archs []wsp.Arch) func(AState, int) []AOp {
+	g := c01Gen(archs)
+	return func(st AState, d int) []AOp {
+		ops := g(st, d)
+		if r0 := archs[0].Ret(); r0 > 1 {
+			ops = append(ops, AOp{Kind: "WB", Arch: 0, Ages: []int64{1, -(r0 - 1)}, Vals: []float64{1, 4}})
+		}
+		return ops
+	}
+}
+
 // c06CrossRead opens the same bytes with both libraries and compares metadata and all plain windows.
 func c06CrossRead(c *fw.Ctx, cfg ACfg, st AState, writer string, full bool) {
 	vrt.SetPagesize(cfg.Page)
@@ -218,7 +231,7 @@ func c06Reverse(c *fw.Ctx, cfg ACfg, now0 int64, depth, maxStates int) {
 			for _, a := range ages {
 				ops = append(ops, gop{"U", a, 0})
 			}
-			ops = append(ops, gop{"UM", 0, 0}, gop{"ADV", 0, 1}, gop{"ADV", 0, int64(cfg.Archs[len(cfg.Archs)-1].Step)}, gop{"ADV", 0, r0})
+			ops = append(ops, gop{"UM", 0, 0}, gop{"UMF", 0, 0}, gop{"ADV", 0, 1}, gop{"ADV", 0, int64(cfg.Archs[len(cfg.Archs)-1].Step)}, gop{"ADV", 0, r0})
 			for _, op := range ops {
 				if len(all)+len(next) >= maxStates {
 					break
@@ -236,6 +249,8 @@ func c06Reverse(c *fw.Ctx, cfg ACfg, now0 int64, depth, maxStates int) {
 					v := Vals[d%3]
 					if op.kind == "U" {
 						g.Update(v, int(st.Now-op.age))
+					} else if op.kind == "UMF" {
+						g.UpdateMany([]*gw.TimeSeriesPoint{{Time: int(st.Now - 1), Value: 1}, {Time: int(st.Now + r0 - 1), Value: 4}})
 					} else {
 						var pts []*gw.TimeSeriesPoint
 						for age := r0 - 1; age >= 0; age -= int64(cfg.Archs[0].Step) {
@@ -271,7 +286,7 @@ func c06Reverse(c *fw.Ctx, cfg ACfg, now0 int64, depth, maxStates int) {
 func runC06(c *fw.Ctx) {
 	var layouts []LayoutDef
 	layouts = append(layouts, CoreLayouts...)
-	depth, maxCore := 3, 60
+	depth, maxCore := 3, 200
 	if c.Thorough() {
 		depth, maxCore = 4, 600
 		layouts = append(layouts, AllSmallLayouts()...)
@@ -306,7 +321,7 @@ func runC06(c *fw.Ctx) {
 					page = 20
 				}
 				cfg := ACfg{Tag: ld.Tag, Spec: ld.Spec, Archs: ld.Archs, Method: m.m, XFF: m.xff, Page: page}
-				e := &Explorer{C: c, Cfg: cfg, Now0: now, Depth: depth, Gen: c01Gen(cfg.Archs), Judge: c06FormatJudge, MaxCore: maxCore}
+				e := &Explorer{C: c, Cfg: cfg, Now0: now, Depth: depth, Gen: c06Gen(cfg.Archs), Judge: c06FormatJudge, MaxCore: maxCore}
 				e.OnCore = func(st AState, rings []wsp.Ring) { c06CrossRead(c, cfg, st, "whispertool", false) }
 				e.Run()
 				c06Reverse(c, cfg, now, depth, maxCore)
